@@ -33,8 +33,9 @@ class C13(Property):
     pid = "C13"
     quick_n = 220
     thorough_n = 1500
-    partial = ["C13_width (line-length bound) is decided by the oracle and the differential run; proved: content preservation "
-               "for every width and every document, and that the short form is a prefix-by-paragraph of the full form"]
+    partial = ["the width clause is proved on renderer states (the column counter dominates the current line; a word placed "
+               "beyond width+2 is the first after the indentation/term or shares its line with code), not as a statement about "
+               "the lines of the final text: that is decided by the oracle and the differential run"]
 
     def gen_def(self, rng):
         names = gen.Names(rng)
